@@ -231,6 +231,9 @@ class ScalarValue(ConstantValue):
         hash value and therefore not collide in a dict.
         """
         if isinstance(other, self._ufl_class_):
+            if self._value != self._value:
+                # NaN payload: keep == reflexive and in line with hash and repr (both computed from repr)
+                return repr(self) == repr(other)
             return self._value == other._value
         elif isinstance(other, int | float):
             # FIXME: Disallow this, require explicit 'expr ==
